@@ -1349,9 +1349,9 @@ struct StartupPlan {
 
 pub struct StartupPart;
 
-struct TempDir(PathBuf);
+pub struct TempDir(pub PathBuf);
 impl TempDir {
-    fn new(tag: u64) -> Self {
+    pub fn new(tag: u64) -> Self {
         let base = if Path::new("/dev/shm").is_dir() { PathBuf::from("/dev/shm") } else { std::env::temp_dir() };
         let p = base.join(format!("hv-c14-{}-{tag:x}", std::process::id()));
         let _ = std::fs::remove_dir_all(&p);
@@ -1365,7 +1365,7 @@ impl Drop for TempDir {
     }
 }
 
-fn zone_file_text(u: &Universe, serial: u32) -> String {
+pub fn zone_file_text(u: &Universe, serial: u32) -> String {
     let mut s = String::new();
     s.push_str("$ORIGIN example.com.\n$TTL 3600\n");
     for r in initial_records(u, serial) {
@@ -1374,13 +1374,18 @@ fn zone_file_text(u: &Universe, serial: u32) -> String {
     s
 }
 
-fn startup_config() -> SqliteConfig {
+pub fn startup_config() -> SqliteConfig {
     SqliteConfig {
         zone_path: PathBuf::from("example.com.zone"),
         journal_path: PathBuf::from("example.com.jrnl"),
         allow_update: true,
         tsig_keys: vec![TsigKeyConfig { name: KEY_NAME.to_string(), key_file: PathBuf::from("update.key"), algorithm: TsigAlgorithm::HmacSha256, fudge: 300 }],
     }
+}
+
+/// the real start-up path with a given transfer policy
+pub async fn start_with_policy(u: &Universe, root: &Path, policy: AxfrPolicy) -> Result<SqliteZoneHandler<SimProvider>, String> {
+    SqliteZoneHandler::<SimProvider>::try_from_config(u.origin.clone(), ZoneType::Primary, policy, false, Some(root), &startup_config(), None).await
 }
 
 async fn start(u: &Universe, root: &Path) -> Result<SqliteZoneHandler<SimProvider>, String> {
